@@ -236,18 +236,30 @@ impl Reporter {
     }
 
     pub fn is_known(&self, key: &str) -> bool {
-        self.known.iter().any(|k| k.key == key)
+        self.known_key_for(key).is_some()
+    }
+
+    /// The listed key a class key matches: exactly, or — for keys that embed a source location
+    /// (`…/file.rs:LINE[:COL]`, panics) — up to the line/column numbers, so that an unrelated edit
+    /// that shifts lines in that file does not turn a recorded finding into an alarm. The file, the
+    /// failure kind and the input-class part of the key must still agree.
+    fn known_key_for(&self, key: &str) -> Option<String> {
+        if let Some(k) = self.known.iter().find(|k| k.key == key) {
+            return Some(k.key.clone());
+        }
+        if !key.contains(".rs:") {
+            return None;
+        }
+        let lf = strip_line_numbers(key);
+        self.known.iter().find(|k| k.key.contains(".rs:") && strip_line_numbers(&k.key) == lf).map(|k| k.key.clone())
     }
 
     /// Report one violating case. `key` is the class key from the check's classifier; when it is
     /// listed in known_findings.json the case is counted as a known finding, otherwise a replay
     /// file is written and a VIOLATION line printed (once per distinct key, capped).
     pub fn violation(&mut self, key: &str, what: &str, replay: Value) {
-        if self.is_known(key) {
-            let e = self
-                .known_hits
-                .entry(key.to_string())
-                .or_insert((0, replay.clone()));
+        if let Some(listed) = self.known_key_for(key) {
+            let e = self.known_hits.entry(listed).or_insert((0, replay.clone()));
             e.0 += 1;
             return;
         }
@@ -408,6 +420,30 @@ pub fn silence_panics() {
             .unwrap_or_default();
         LAST_PANIC_LOC.with(|c| *c.borrow_mut() = Some(loc));
     }));
+}
+
+/// `…/file.rs:123:45` → `…/file.rs` everywhere in `s`.
+pub fn strip_line_numbers(s: &str) -> String {
+    let mut out = String::with_capacity(s.len());
+    let mut rest = s;
+    while let Some(i) = rest.find(".rs:") {
+        out.push_str(&rest[..i + 3]);
+        let mut tail = &rest[i + 3..];
+        // up to two `:digits` groups
+        for _ in 0..2 {
+            if let Some(t) = tail.strip_prefix(':') {
+                let n = t.bytes().take_while(|b| b.is_ascii_digit()).count();
+                if n > 0 {
+                    tail = &t[n..];
+                    continue;
+                }
+            }
+            break;
+        }
+        rest = tail;
+    }
+    out.push_str(rest);
+    out
 }
 
 pub fn take_panic_loc() -> String {
